@@ -25,6 +25,7 @@ type Net struct {
 	// active-role routing: where library dials go
 	target  atomic.Pointer[string] // "host:port" of the peer listener; nil => refuse
 	Refuse  atomic.Bool            // refuse dials (connection refused) regardless of target
+	RefuseN atomic.Int32           // refuse exactly the next N dials (decremented per refused dial)
 	DialGate func(n int)           // optional hook called before each dial (n = attempt index from 1)
 	Trace    func(ev string)        // optional: "start-ok" | "start-fail" (a dial / Listen of the library returned)
 }
@@ -64,7 +65,18 @@ func (n *Net) Dial(ctx context.Context, network, _ string) (net.Conn, error) {
 	}
 	rec := DialRecord{At: time.Now()}
 	t := n.target.Load()
-	if t == nil || n.Refuse.Load() {
+	refuseThis := false
+	for {
+		k := n.RefuseN.Load()
+		if k <= 0 {
+			break
+		}
+		if n.RefuseN.CompareAndSwap(k, k-1) {
+			refuseThis = true
+			break
+		}
+	}
+	if t == nil || n.Refuse.Load() || refuseThis {
 		n.mu.Lock()
 		n.Dials = append(n.Dials, rec)
 		n.mu.Unlock()
